@@ -1039,6 +1039,94 @@ pub(crate) fn h_include_transparent() {
     }
 }
 
+/// include names are resolved relative to the including file: sub-directories, both separators, quoted and unquoted
+/// names, a decoy file of the same name in the directory of the main file (= current directory), and an A2ML
+/// /include inside an included fragment that lives in a sub-directory
+pub(crate) fn h_include_paths() {
+    let sep = if vrt_choice(2) == 1 { "\\" } else { "/" };
+    let quoted = vrt_choice(2) == 1;
+    let main_in_subdir = vrt_choice(2) == 1;       // the main file itself lives in a directory below the current one
+    let with_a2ml = vrt_choice(2) == 1;
+    let head = "ASAP2_VERSION 1 71\n/begin PROJECT p \"\"\n/begin MODULE m \"\"\n";
+    let tail = "/end MODULE\n/end PROJECT\n";
+    let ms = "/begin MEASUREMENT ms \"\" UBYTE NO_COMPU_METHOD 0 0 0 255\n/end MEASUREMENT\n";
+    let good = "/begin COMPU_METHOD cm_good \"\" IDENTICAL \"%6.3\" \"\"\n/end COMPU_METHOD\n";
+    let decoy = "/begin COMPU_METHOD cm_decoy \"\" IDENTICAL \"%6.3\" \"\"\n/end COMPU_METHOD\n";
+    let aml_good = "block \"IF_DATA\" taggedunion if_data { \"XA\" uint; };";
+    let aml_decoy = "block \"IF_DATA\" taggedunion if_data { \"XB\" uint; };";
+    let ifd = "/begin IF_DATA XA 1\n/end IF_DATA\n";
+    let base = if main_in_subdir { "proj/" } else { "" };
+    // proj?/main.a2l -> ecu/meas.a2l -> common.a2l (means ecu/common.a2l), decoys: common.a2l next to main and in the current directory
+    let mut meas = String::from(ms);
+    meas.push_str(if quoted { "/include \"common.a2l\"\n" } else { "/include common.a2l\n" });
+    if with_a2ml {
+        meas.push_str("/begin A2ML\n/include \"defs.aml\"\n/end A2ML\n");
+        meas.push_str(ifd);
+    }
+    let mut main = String::from(head);
+    main.push_str("/include ");
+    if quoted { main.push('"'); }
+    main.push_str("ecu");
+    main.push_str(sep);
+    main.push_str("meas.a2l");
+    if quoted { main.push('"'); }
+    main.push('\n');
+    main.push_str(tail);
+    let mut flat = String::from(head);
+    flat.push_str(ms);
+    flat.push_str(good);
+    if with_a2ml {
+        flat.push_str("/begin A2ML\n");
+        flat.push_str(aml_good);
+        flat.push_str("\n/end A2ML\n");
+        flat.push_str(ifd);
+    }
+    flat.push_str(tail);
+    let mut n = String::from(base); n.push_str("ecu/meas.a2l");
+    vrt_fs_write(&n, meas.as_bytes());
+    let mut n = String::from(base); n.push_str("ecu/common.a2l");
+    vrt_fs_write(&n, good.as_bytes());
+    let mut n = String::from(base); n.push_str("common.a2l");
+    vrt_fs_write(&n, decoy.as_bytes());
+    vrt_fs_write("common.a2l", decoy.as_bytes());
+    if with_a2ml {
+        let mut n = String::from(base); n.push_str("ecu/defs.aml");
+        vrt_fs_write(&n, aml_good.as_bytes());
+        let mut n = String::from(base); n.push_str("defs.aml");
+        vrt_fs_write(&n, aml_decoy.as_bytes());
+        vrt_fs_write("defs.aml", aml_decoy.as_bytes());
+    }
+    let mut n = String::from(base); n.push_str("main.a2l");
+    let path = vrt_fs_write(&n, main.as_bytes());
+    let (flat_file, _) = load_from_string(&flat, None, true).unwrap();
+    match load(&path, None, true) {
+        Ok((mut file, log)) => {
+            vrt_check(log.is_empty(), "C16 a file with includes in sub-directories loads without diagnostics");
+            let m = &file.project.module[0];
+            vrt_check(m.compu_method.contains_key("cm_good") && !m.compu_method.contains_key("cm_decoy"), "C16 a nested include name is resolved relative to the including file, not to the main file or the current directory");
+            vrt_check(m.measurement.len() == flat_file.project.module[0].measurement.len() && m.compu_method.len() == 1, "C16 the included elements are loaded exactly once");
+            if with_a2ml {
+                vrt_check(m.if_data.len() == 1 && m.if_data[0].ifdata_valid, "C16 an A2ML /include inside an included file is resolved relative to that file");
+            } else {
+                vrt_check(file == flat_file, "C16 loading through /include in sub-directories yields the same model as loading the flattened text");
+            }
+            let out = file.write_to_string();
+            vrt_check(out.contains("/include"), "C16 writing reproduces the include directive");
+            let mut n2 = String::from(base); n2.push_str("main2.a2l");
+            let path2 = vrt_fs_write(&n2, out.as_bytes());
+            match load(&path2, None, true) {
+                Ok((file2, _)) => vrt_check(file2 == file, "C16 the written file loads to an equal model from the same directory"),
+                Err(_) => vrt_check(false, "C16 the written file loads again from the same directory"),
+            }
+            file.merge_includes();
+            let out3 = file.write_to_string();
+            vrt_check(!out3.contains("/include \"ecu") && !out3.contains("/include ecu") && !out3.contains("/include common") && !out3.contains("/include \"common"), "C16 merge_includes makes the A2L output self-contained");
+        }
+        Err(_) => vrt_check(false, "C16 a file whose include files exist in sub-directories loads"),
+    }
+    vrt_cover(true, "include_paths_end");
+}
+
 /// a missing include file is an error naming the directive, not a panic or a partial result
 pub(crate) fn h_include_missing() {
     let quoted = vrt_choice(2) == 1;
